@@ -221,7 +221,9 @@ def run_cfg(args):
         "hdrPad": hdrs[0].data.pad_octet_count if hdrs else -1,
         "started": nstart, "ended": nend, "blocks": blocks,
         "dataOk": bool(handed) and hdr_pad >= 0 and data == payload + bytes(hdr_pad),
-        "crc32Ok": bool(crc32ok), "shape": shape}
+        "crc32Ok": bool(crc32ok), "shape": shape,
+        # the colour code the transmission was asked for and the one every generated burst carries once parsed
+        "cc": cc, "ccs": [int(pb.colour_code) for pb in parsed]}
     return trace
 
 
